@@ -204,6 +204,9 @@ func (x *Exec) apiDo(op Op) (res *Observed) {
 		if err != nil {
 			return apiErr(err)
 		}
+		if op.B("quiet") {
+			r.Deleted = nil // (what the front end does with the result)
+		}
 		var sb bytes.Buffer
 		sb.WriteString("<DeleteResult>")
 		for _, d := range r.Deleted {
